@@ -238,9 +238,111 @@ class SLabels(Model):
         return SInt(cnt(self.materialize(ctx), self.frame.n))
 
 
+class SRowSelCol(Model):
+    """data.loc[mask, col]: the values of one column in the rows where the mask holds (a Series)"""
+    pytype = 'Series'
+
+    def __init__(self, frame, mask, col):
+        self.frame, self.mask, self.col = frame, mask, col
+
+    def sel(self, i):
+        return z3.And(self.frame.present(i), to_bool_term(self.mask.at(i)))
+
+    def _reduce(self, ctx, kind, skipna=True, **kw):
+        if kw or skipna is not True:
+            raise Unsupported(f'Series.{kind} options')
+        fr = self.frame
+        if fr.kinds.get(self.col) != 'float':
+            raise Unsupported(f'Series.{kind} of a non-float column')
+        at = fr.cols[self.col]
+        v, vn = smt.fresh_real(kind), fresh_bool(kind + '_nan')
+        res = SFloat(v, vn, 'npfloat')
+        valid = lambda j: z3.And(self.sel(j), z3.Not(at(j).nan))
+        val = lambda j: at(j).v
+        # NaN exactly when no valid value is selected
+        if kind != 'std':
+            ctx.assume(smt.Forall(0, fr.n, lambda j: z3.Implies(valid(j), z3.Not(vn)), name='rd'))
+        wa, wb = fresh_int(kind + '_wa'), fresh_int(kind + '_wb')
+        inr = lambda w: z3.And(w >= 0, w < fr.n, valid(w))
+        if kind == 'min':
+            ctx.assume(z3.Implies(z3.Not(vn), z3.And(inr(wa), v == val(wa))))
+            ctx.assume(smt.Forall(0, fr.n, lambda j: z3.Implies(valid(j), v <= val(j)), name='rl'))
+        elif kind == 'max':
+            ctx.assume(z3.Implies(z3.Not(vn), z3.And(inr(wa), v == val(wa))))
+            ctx.assume(smt.Forall(0, fr.n, lambda j: z3.Implies(valid(j), v >= val(j)), name='rl'))
+        elif kind == 'mean':
+            ctx.assume(z3.Implies(z3.Not(vn), z3.And(inr(wa), inr(wb), val(wa) <= v, v <= val(wb))))
+        elif kind == 'std':
+            # sample standard deviation (ddof=1): NaN with fewer than two valid values, else a non-negative number
+            ctx.assume(z3.Implies(z3.Not(vn), z3.And(v >= 0, inr(wa))))
+        else:
+            raise Unsupported(kind)
+        ctx.hint(wa, wb)
+        ctx.ghost.setdefault('reductions', []).append((kind, self, res))
+        return res
+
+    def m_min(self, ctx, **kw):
+        return self._reduce(ctx, 'min', **kw)
+
+    def m_max(self, ctx, **kw):
+        return self._reduce(ctx, 'max', **kw)
+
+    def m_mean(self, ctx, **kw):
+        return self._reduce(ctx, 'mean', **kw)
+
+    def m_std(self, ctx, **kw):
+        return self._reduce(ctx, 'std', **kw)
+
+
+LIB_DOC['pandas.DataFrame.loc[bool Series, col]'] = 'the values of col in the rows where the mask is True'
+LIB_DOC['pandas.Series.min/max(skipna=True)'] = 'the smallest / largest non-NaN value (one of the values); NaN iff there is no non-NaN value'
+LIB_DOC['pandas.Series.mean(skipna=True)'] = 'a value between the smallest and the largest non-NaN value; NaN iff there is none'
+LIB_DOC['pandas.Series.std(skipna=True)'] = 'NaN or a non-negative number'
+
+
+class SRowSelCols(Model):
+    """data.loc[mask, [c1, c2]]: a sub-frame; only .values is modelled (an opaque 2-D array that remembers its selection)"""
+    pytype = 'DataFrame'
+
+    def __init__(self, frame, mask, cols):
+        self.frame, self.mask, self.cols = frame, mask, tuple(cols)
+
+    def sel(self, i):
+        return z3.And(self.frame.present(i), to_bool_term(self.mask.at(i)))
+
+    def a_values(self, ctx):
+        return SSelValues(self)
+
+
+class SSelValues(Model):
+    pytype = 'ndarray'
+
+    def __init__(self, selection):
+        self.selection = selection
+
+    def a_ndim(self, ctx):
+        return 2
+
+
+LIB_DOC['pandas.DataFrame.loc[bool Series, [cols]].values'] = '2-D array, one row per selected row, the listed columns in order'
+
+
 class _RowsLoc(Model):
     def __init__(self, frame):
         self.frame = frame
+
+    def sym_getitem(self, ctx, idx):
+        if isinstance(idx, tuple) and len(idx) == 2 and isinstance(idx[0], SRowSeries) and idx[0].dtype == 'bool':
+            if idx[0].frame.fid != self.frame.fid:
+                raise Unsupported('boolean mask taken from another frame')
+            if isinstance(idx[1], str):
+                if idx[1] not in self.frame.cols:
+                    from .engine import PyRaise
+                    raise PyRaise('KeyError', idx[1])
+                return SRowSelCol(self.frame, idx[0], idx[1])
+            if isinstance(idx[1], list) and all(isinstance(c, str) and c in self.frame.cols for c in idx[1]):
+                return SRowSelCols(self.frame, idx[0], idx[1])
+        raise Unsupported('.loc[...] read shape on a row frame')
 
     def sym_setitem(self, ctx, idx, val):
         if isinstance(idx, tuple) and len(idx) == 2 and isinstance(idx[0], SLabels) and isinstance(idx[1], str):
